@@ -39,7 +39,7 @@ Definition stacks_for (q : sq) : list (list fmode) :=
   | SIn x => [stack_x x]
   | SAmp x => [FVc :: stack_x x]
   | SBang k | SSent k | SCmt k => stacks_cmt k
-  | SDir _ => []
+  | SDir _ _ => []
   end.
 Definition lm_for (q : sq) : lmode unit :=
   match q with SBang _ => LDir tt | SSent _ => LCopy | SCmt _ => LSkip | _ => LNorm end.
@@ -73,8 +73,10 @@ Definition tguard (s : sst) (k : cls) : bool :=
 
 Definition allK : list sctx := [K0; KT; KS; KD].
 Definition allX : list sx := [XTop; XLit QS; XLit QD].
+Definition allD : list dsub := [DTxt; DSl; DLc; DBlk; DBlkSt; DDq; DSq].
 Definition allQ : list sq :=
-  map SBol allK ++ map SIn allX ++ map SAmp allX ++ map SBang allK ++ map SSent allK ++ map SCmt allK ++ map SDir allK.
+  map SBol allK ++ map SIn allX ++ map SAmp allX ++ map SBang allK ++ map SSent allK ++ map SCmt allK ++
+  flat_map (fun k => map (SDir k) allD) allK.
 Definition allM : list mark := [mU; mB; mM].
 Definition allB : list bcls := [bE; bE'; bT; bN; bH0; bH1; bO].
 Definition allC : list cls := [kSp; kWs; kHash; kBs; kSl; kSt; kDq; kSq; kBang; kAmp; kDol; kAl; kOt].
@@ -103,7 +105,7 @@ Proof. vm_compute. reflexivity. Qed.
 
 (* ---------- lifting ---------- *)
 Lemma in_allQ q : In q allQ.
-Proof. destruct q as [[]|[|[]]|[|[]]|[]|[]|[]|[]]; cbn; repeat (first [left; reflexivity | right]). Qed.
+Proof. destruct q as [[]|[|[]]|[|[]]|[]|[]|[]|[] []]; cbn; repeat (first [left; reflexivity | right]). Qed.
 Lemma in_allM m : In m allM. Proof. destruct m; cbn; tauto. Qed.
 Lemma in_allB b : In b allB. Proof. destruct b; cbn; tauto. Qed.
 Lemma in_allC k : In k allC. Proof. destruct k; cbn; repeat (first [left; reflexivity | right]). Qed.
